@@ -17,6 +17,8 @@ the point set of a permutation and to the centres of the cells of a shading.  Su
   scale       perm_ops / mesh_ops / all_syms / sets / equiv again on a sparse, fully enumerated
               family of long structured permutations (lengths 7..12, 31..34, 255..258, 300) and
               mixed-length sets containing one of them, in several container kinds
+  long_mesh_equiv  mesh equivariance with long texts (lengths around the integer constants the code
+              under test names, mc/thresholds.py): thin family with a brute-force-exact reference
   abort       every operation of the property cut off at each of its calls into the library, then
               everything asked again on the same and on fresh equal objects
   cli         `permtools lexmin <basis>` driven in-process (cli.main / parser / get_lex_min),
@@ -980,6 +982,67 @@ def shard_scale_equiv(shard):
 
 
 # --------------------------------------------------------------------------------------------
+# long_mesh_equiv : mesh equivariance with LONG texts (thin family, sizes named by the code)
+# --------------------------------------------------------------------------------------------
+# Text = a skeleton permutation of length 4 (5) in which one point is replaced by a monotone run,
+# chosen so that no occurrence of the pattern uses a run point (X.long_mesh_skeletons).  The run is
+# then a bystander lying in ONE box of every occurrence, whatever its length, so the number of mesh
+# occurrences equals the one in the skeleton (brute force there).  Oracle: the library's count (and
+# `contains`) on all eight images of (mesh pattern, long text) equals that number.
+
+SKELETONS = {}     # maxlen -> list, filled before forking
+
+
+def case_long_mesh(part, case):
+    """case = {"patt": p, "cell": [x, y], "sigma": s, "j": j, "dir": d, "n": n, "sym": name}"""
+    lib = _lib()
+    p, cell = tuple(case["patt"]), tuple(case["cell"])
+    sigma, j, d, n, sym = tuple(case["sigma"]), case["j"], case["dir"], case["n"], case["sym"]
+    exp = len(R.mesh_occurrences(p, [cell], sigma))
+    t = X.inflate_point(sigma, j, n - len(sigma) + 1, d)
+    try:
+        M = call_seq(lib.MeshPatt(lib.Perm(p), [cell]), CANON_MESH[sym])
+        T = call_seq(lib.Perm(t), CANON_PERM[sym])
+        got = (M.count_occurrences_in(T), bool(T.contains(M)))
+    except Exception as exc:  # noqa
+        part.violation("long_mesh_equiv", case, {"exception": repr(exc)})
+        return
+    if got != (exp, exp > 0):
+        part.violation("long_mesh_equiv", case, {"expected (count, contains)": (exp, exp > 0),
+                                                 "got": got, "text": "inflation of %r at %d by a %s run, length %d" % (sigma, j, d, n)})
+
+
+def shard_long_mesh(shard):
+    n, maxlen, lo, hi = shard
+    lib = _lib()
+    part = Partial()
+    cells = R.all_cells(3)
+    for patt, sigma, j, d in SKELETONS[maxlen][lo:hi]:
+        if n < len(sigma):
+            continue
+        t = X.inflate_point(sigma, j, n - len(sigma) + 1, d)
+        timgs = _images(lib.Perm(t), CANON_PERM)
+        for cell in cells:
+            exp = len(R.mesh_occurrences(patt, [cell], sigma))
+            imgs = _images(lib.MeshPatt(lib.Perm(patt), [cell]), CANON_MESH)
+            for si in range(8):
+                case = {"patt": patt, "cell": cell, "sigma": sigma, "j": j, "dir": d, "n": n,
+                        "sym": SYMS[si]}
+                P, T = imgs[si], timgs[si]
+                ok = False
+                if not isinstance(P, Exception) and not isinstance(T, Exception):
+                    try:
+                        ok = (P.count_occurrences_in(T), bool(T.contains(P))) == (exp, exp > 0)
+                    except Exception:  # noqa
+                        ok = False
+                if not ok:
+                    _loop_failed(part, "long_mesh_equiv", case_long_mesh, case, "count differs")
+            unshaded = len(R.occurrences(patt, sigma))
+            part.add(8, 8 if 0 < exp < unshaded else 0)
+    return part
+
+
+# --------------------------------------------------------------------------------------------
 # abort : fault injection (bound 1) - an operation is cut off at its k-th call into the library,
 #         then everything is asked again on the same objects and on fresh equal objects
 # --------------------------------------------------------------------------------------------
@@ -1528,9 +1591,19 @@ def run(ctx, only=None):
         e0, v0 = ctx.evals, ctx.nviol
         sizes = sorted(X.SCALE_SIZES_QUICK + ([] if quick else X.SCALE_SIZES_MORE))
         eq_sizes = [n for n in sizes if n <= (12 if quick else 34)]
-        ctx.pmap(shard_scale_ops, [(n,) for n in sizes])
+        # plus the thresholds the code under test names itself (literals, recursion limit): the
+        # operations (perm_ops, mesh_ops, all_syms) on the long shapes also at those sizes
+        from ..thresholds import code_constants, sizes_around
+        from ..core import REPO
+        named = code_constants(REPO)
+        extra = [n for n in sizes_around(named, 13, 1100 if quick else 10100) if n not in sizes]
+        if quick:       # above 300 only c and c+1 for a named constant c
+            extra = [n for n in extra if n <= 300 or n in named or n - 1 in named]
+        ctx.bounds["scale_named_thresholds"] = {"constants_in_code": named, "extra_sizes_for_ops": extra}
+        op_sizes = sorted(sizes + extra, reverse=True)
+        ctx.pmap(shard_scale_ops, [(n,) for n in op_sizes])
         shards = []
-        for n in sizes:
+        for n in op_sizes:
             shards += chunked(n, len(scale_mesh_specs(n)), 60)
         ctx.pmap(shard_scale_mesh, shards)
         shards = []
@@ -1549,6 +1622,31 @@ def run(ctx, only=None):
             "equiv": "all patterns of length <= 3 in every long shape of length %s, 8 symmetries, fresh and used" % eq_sizes,
         }
         ctx.section("scale", evaluations=ctx.evals - e0, violations=ctx.nviol - v0)
+
+    if want("long_mesh_equiv"):
+        e0, v0 = ctx.evals, ctx.nviol
+        from ..thresholds import code_constants, sizes_around
+        from ..core import REPO
+        named = code_constants(REPO)
+        cap = 600 if quick else 1100
+        base_sizes = [8, 9, 12, 33, 34, 257, 258]
+        lsizes = sorted(set(base_sizes + sizes_around(named, 8, cap)))
+        if quick:       # above 300 only c and c+1 for a named constant c
+            lsizes = [n for n in lsizes if n <= 300 or n in named or n - 1 in named]
+        maxlen = 4 if quick else 5
+        SKELETONS[maxlen] = X.long_mesh_skeletons(maxlen)
+        nsk = len(SKELETONS[maxlen])
+        shards = []
+        for n in sorted(lsizes, reverse=True):       # the long ones first (load balance)
+            per = 3 if n > 300 else (12 if n > 40 else 48)
+            shards += [(n, maxlen, lo, min(nsk, lo + per)) for lo in range(0, nsk, per)]
+        ctx.pmap(shard_long_mesh, shards)
+        ctx.bounds["long_mesh_equiv"] = {
+            "constants_in_code": named, "text_lengths": lsizes, "cap": cap,
+            "skeletons": "%d (pattern of length 3, skeleton of length <= %d containing it, point, run "
+                         "direction) with the run a pure bystander" % (nsk, maxlen),
+            "shadings": "each of the 16 single boxes", "symmetries": 8}
+        ctx.section("long_mesh_equiv", evaluations=ctx.evals - e0, violations=ctx.nviol - v0)
 
     if want("abort"):
         e0, v0 = ctx.evals, ctx.nviol
@@ -1617,7 +1715,7 @@ CASE_FUNCS = {
     "equiv": case_equiv, "equiv_state": case_equiv,
     "mesh_equiv": case_mesh_equiv, "mesh_equiv_state": case_mesh_equiv,
     "all_syms": case_all_syms, "sets": case_sets, "cli": case_cli, "chain": case_chain,
-    "abort": case_abort,
+    "abort": case_abort, "long_mesh_equiv": case_long_mesh, "long_mesh_equiv_state": case_long_mesh,
 }
 
 
